@@ -1,6 +1,7 @@
 import PikaVerif.Model.Shared
 import PikaVerif.Model.SharedLife
 import PikaVerif.Model.WhenAll
+import PikaVerif.Model.WhenAllLife
 import Driver.Util
 /-!
 Driver for the shared-state model (C03, engine E1): hook-event logs of `harness/e1/split.cpp`
@@ -22,6 +23,21 @@ def chOfThread (c : Case) (t : Nat) : Nat :=
   match c.threads[t]? with
   | some l => if (l.splitOn "complete_value").length > 1 then 0
               else if (l.splitOn "complete_stopped").length > 1 then 1 else 2
+  | none => 0
+
+/-- when_all kinds: channel of the `complete_<ch> idx arg` op for child `idx` in thread `t`'s program (a thread may
+    complete several children, with different channels) -/
+def chOfThreadIdx (c : Case) (t idx : Nat) : Nat :=
+  match c.threads[t]? with
+  | some l =>
+    let toks := (l.splitOn " ").filter (· != "")
+    let rec go : List String → Option Nat
+      | a :: b :: rest =>
+        if a.startsWith "complete_" && b.toNat? == some idx then
+          some (if a == "complete_value" then 0 else if a == "complete_stopped" then 1 else 2)
+        else go (b :: rest)
+      | _ => none
+    (go toks).getD (chOfThread c t)
   | none => 0
 
 def rsig (ch : Nat) (b : Int) : Shared.RSig :=
@@ -247,8 +263,10 @@ def toEventsWA (c : Case) (ls : List Line) : List (Option WhenAll.Ev × String) 
     let ev (e : WhenAll.Ev) : Option (Option WhenAll.Ev × String) := some (some e, l.raw)
     match l.site with
     | "sl.lock" | "ag.yield" => none
+    -- C03w: count of guarded operation states destroyed so far (compared with the model's `nfree` at the end)
+    | "life.oprel" => none
     | "inv.start" => ev (.invStart t)
-    | "inv.complete" => ev (.invComplete t l.a.toNat (chOfThread c t) l.b)
+    | "inv.complete" => ev (.invComplete t l.a.toNat (chOfThreadIdx c t l.a.toNat) l.b)
     | "fire.value" => ev (.fire t l.a.toNat 0 l.b)
     | "fire.stopped" => ev (.fire t l.a.toNat 1 l.b)
     | "fire.error" => ev (.fire t l.a.toNat 2 l.b)
@@ -291,21 +309,103 @@ def monitorsWA (c : Case) (ls : List Line) : List String :=
         if fires.any (·.site == "fire.stopped") then [] else ["when_all delivered stopped although no predecessor was stopped"]
   v0 ++ v1 ++ v1b ++ v2
 
+/-- C03w monitors, from the raw log only: the downstream completion is issued by the thread whose `wa.fin`
+    was the `n`-th (last) decrement, from inside that call (`wa.zero` by the same thread in between); after the
+    last decrement no other thread produces any `fire.*` / `wa.*` / `rcv.*` line; at most `n` decrements; with
+    life=1 the guarded operation state is destroyed at most once, and exactly once when everything completed;
+    nothing faults on the destroyed operation state. -/
+def monitorsWALife (c : Case) (ls : List Line) : List String :=
+  let n := c.getNat "n"
+  let isCall (l : Line) : Bool := l.site.startsWith "wa." || l.site.startsWith "fire." || l.site.startsWith "rcv."
+  let fins := ls.filter (·.site == "wa.fin")
+  let rcvs := ls.filter (fun l => l.site.startsWith "rcv.")
+  let fires := ls.filter (fun l => l.site.startsWith "fire.")
+  let started := ls.any (·.site == "inv.start")
+  let m0 := if ls.any (·.site == "life.touch-after-release") then
+      ["the when_all operation state was accessed after the completing call destroyed it (touch after release; guard fault)"]
+    else if ls.any (·.site == "life.segv") then ["segmentation fault outside the guarded operation state"] else []
+  let m1 := if fins.length > n then [s!"{fins.length} decrements of predecessors_remaining for {n} children"] else []
+  -- everything after the n-th decrement
+  let rec afterLast : List Line → Nat → List Line → Option (List Line × Line × List Line)
+    | [], _, _ => none
+    | l :: rest, k, pre =>
+      if l.site == "wa.fin" then (if k + 1 == n then some (pre.reverse, l, rest) else afterLast rest (k + 1) (l :: pre))
+      else afterLast rest k (l :: pre)
+  let m2 := if n == 0 then
+      (match rcvs.head?, (ls.filter (·.site == "inv.start")).head? with
+       | some r, some st => if r.tid == st.tid then [] else ["when_all_vector of no senders: completion not issued by start()"]
+       | some _, none => ["completion without start()"]
+       | none, _ => [])
+    else match afterLast ls 0 [] with
+    | none => if rcvs.isEmpty then [] else ["downstream completion before the last decrement"]
+    | some (before, lf, rest) =>
+      let foreign := rest.filter (fun l => isCall l && l.tid != lf.tid)
+      let a := if foreign.isEmpty then [] else
+        [s!"thread {(foreign.headD lf).tid} accessed the operation state ({(foreign.headD lf).site}) after the last decrement, made by thread {lf.tid}"]
+      let b := match rcvs.head? with
+        | some r => if r.tid != lf.tid then [s!"completion issued by thread {r.tid}, the last decrement was made by thread {lf.tid}"]
+                    else if !(rest.any (fun l => l.site == "wa.zero" && l.tid == lf.tid)) then ["completion without wa.zero of the last child"] else []
+        | none => []
+      let c' := if before.any (fun l => l.site.startsWith "rcv.") then
+          ["downstream completion before the last decrement"] else []
+      a ++ b ++ c'
+  let m3 := if c.get "life" != "1" then [] else
+    match (ls.filter (·.site == "life.oprel")).getLast? with
+    | none => if c.status == "ok" then ["life=1 case without a life.oprel note"] else []
+    | some l =>
+      if l.a > 1 then [s!"operation state destroyed {l.a} times"]
+      else if c.status == "ok" && started && fires.length == n && l.a != 1 then
+        [s!"every child completed but the self-deleting operation state was destroyed {l.a} times (exactly once expected)"]
+      else []
+  -- the decision, recomputed from the raw log: the first non-value child to reach the flag (`wa.sig` with channel
+  -- 1 / 2; its completion is the last `fire.*` line of the same thread) decides; none = value
+  let rec firstNonValue : List Line → List (Nat × Nat × Int) → Option (Nat × Int)
+    | [], _ => none
+    | l :: rest, cur =>
+      if l.site.startsWith "fire." then
+        firstNonValue rest ((l.tid, (chOfSite l.site).getD 0, l.b) :: cur.filter (·.1 != l.tid))
+      else if l.site == "wa.sig" && l.a != 0 then
+        match cur.find? (·.1 == l.tid) with
+        | some (_, ch, arg) => some (ch, arg)
+        | none => some (l.a.toNat, 0)
+      else firstNonValue rest cur
+  let m4 := match rcvs.head?, firstNonValue ls [] with
+    | some r, some (ch, arg) =>
+      if ch == 1 then (if r.site == "rcv.stopped" then [] else [s!"the first non-value child to reach the flag was stopped, but {r.site} {r.b} was delivered"])
+      else if r.site == "rcv.error" && r.b == arg then [] else
+        [s!"the first non-value child to reach the flag failed with error {arg} (winner of the exchange), but {r.site} {r.b} was delivered"]
+    | some r, none => if r.site == "rcv.value" then [] else [s!"{r.site} delivered although no child failed or was stopped"]
+    | none, _ => []
+  m0 ++ m1 ++ m2 ++ m3 ++ m4
+
 def runWA (c : Case) (ls : List Line) : String :=
   let n := c.getNat "n"
   let evs := toEventsWA c ls
-  let mon := monitorsWA c ls
+  let mon := monitorsWA c ls ++ monitorsWALife c ls
   let monS := if mon.isEmpty then "monitors ok" else "monitors FAIL: " ++ " | ".intercalate mon
-  match accept WhenAll.step (WhenAll.init n) evs 0 with
+  let cfg : WhenAllLife.Cfg := { vector := c.get "kind" == "when_all_vector", selfdel := c.get "life" == "1" }
+  -- C03w: the log is replayed through the life-cycle layer (which runs `WhenAll.step` underneath)
+  match accept WhenAllLife.step (WhenAllLife.init cfg n) evs 0 with
   | .error (i, raw) => s!"case {c.id} reject {i} [{raw}] ; {monS}"
-  | .ok s =>
+  | .ok sl =>
+    let s := sl.b
     let allFired := (List.range n).all (fun i => s.firedI i)
     let rcvs := ls.filter (fun l => l.site.startsWith "rcv.")
     -- the model's history must say what the theorems claim and what the harness saw
-    let ghostOk := !allFired || (s.delivered == 1 && s.result == some (WhenAll.decisionG s) &&
-      rcvs.length == 1)
+    let ghostOk := !allFired || !sl.started || (s.delivered == 1 &&
+      (n == 0 || s.result == some (WhenAll.decisionG s)) && rcvs.length == 1)
+    -- C03w: issuer / last child / destruction as the run shows them
+    let issuerOk := match rcvs.head? with
+      | some r => sl.issuerT == some r.tid && (n == 0 || (sl.issuer.isSome && sl.issuer == sl.lastC && s.lastT == r.tid))
+      | none => sl.issuerT.isNone
+    let relOk := match (ls.filter (·.site == "life.oprel")).getLast? with
+      | none => c.get "life" != "1" || c.status != "ok"
+      | some l => l.a.toNat == sl.nfree && (l.a == 1) == sl.freed
     let fin := if c.status == "ok" then
         (if !ghostOk then "final MISMATCH: model history (delivered/result/decisionG) disagrees with the run"
+         else if sl.uaf then "final MISMATCH: model reached touch-after-release"
+         else if !issuerOk then "final MISMATCH: model history (issuer / last child) disagrees with the run"
+         else if !relOk then s!"final MISMATCH: model freed={sl.freed} nfree={sl.nfree} disagrees with the run's life.oprel"
          else if (List.range c.threads.length).all (fun t => s.pc t == .fin) then "final ok"
          else "final MISMATCH: run ended but model threads are not finished")
       else s!"final status {c.status}"
@@ -315,6 +415,6 @@ def runCase (c : Case) : String :=
   let parsed := c.lines.map parseLine
   if parsed.any Option.isNone then s!"case {c.id} reject 0 malformed-line ; monitors FAIL: malformed line" else
   let ls := parsed.filterMap id
-  if c.get "kind" == "when_all" then runWA c ls else runShared c ls
+  if c.get "kind" == "when_all" || c.get "kind" == "when_all_vector" then runWA c ls else runShared c ls
 
 end Driver.SharedDrv
